@@ -37,6 +37,7 @@ type loopInfo struct {
 	rangeIt *Val
 	headHeap *Heap
 	frameArrs []string
+	freshPhis map[*ssa.Phi]bool
 }
 
 type retInfo struct {
@@ -71,6 +72,8 @@ type frame struct {
 	rangeOf map[string]Val
 	deferBase int
 	mods    map[string][]modLoc
+	beforeCtr map[string]int
+	topEntry *Heap
 }
 
 type closureInfo struct {
@@ -383,6 +386,34 @@ func (f *frame) lookupLocal(li *loopInfo, phiVals map[*ssa.Phi]Val, at *ssa.Basi
 	}
 }
 
+// localsAt resolves local variable names at a program point: header phis of the enclosing
+// loops (innermost first), then the latest dominating assignment.
+func (f *frame) localsAt(b *ssa.BasicBlock) func(string) (Val, bool) {
+	var encl []*loopInfo
+	for _, li := range f.loops {
+		if li.body[b.Index] && li.phiCur != nil {
+			encl = append(encl, li)
+		}
+	}
+	sort.Slice(encl, func(i, j int) bool { return len(encl[i].body) < len(encl[j].body) })
+	return func(name string) (Val, bool) {
+		for _, li := range encl {
+			for _, in := range li.header.Instrs {
+				if phi, ok := in.(*ssa.Phi); ok {
+					if phi.Comment == name {
+						if v, ok := li.phiCur[phi]; ok {
+							return v, true
+						}
+					}
+				} else {
+					break
+				}
+			}
+		}
+		return f.lookupLocal(nil, nil, b)(name)
+	}
+}
+
 func (f *frame) invEnv(li *loopInfo, heap *Heap, phiVals map[*ssa.Phi]Val, at *ssa.BasicBlock) *Env {
 	env := &Env{g: f.g, vars: map[string]Val{}, heap: heap, old: f.entry}
 	f.bindParams(env)
@@ -428,6 +459,14 @@ func (f *frame) bindParams(env *Env) {
 			}
 		}
 	}
+}
+
+// entry0: heap at entry of the top-level function (alloc there is the reference point for freshness)
+func (f *frame) entry0() *Heap {
+	if f.topEntry != nil {
+		return f.topEntry
+	}
+	return f.entry
 }
 
 func (f *frame) clauseProps(cl *Clause) []string {
@@ -533,6 +572,15 @@ func (f *frame) exec(st0 *State) (*State, []Val) {
 				}
 				v := f.setReg(phi, iteChain(conds, vals))
 				phiVals[phi] = v
+				allFresh := len(vals) > 0
+				for _, t := range vals {
+					if !g.isFresh(t) {
+						allFresh = false
+					}
+				}
+				if allFresh {
+					g.markFresh(v.T)
+				}
 			}
 			if li != nil {
 				f.loopHeader(li, st, phiVals)
@@ -622,6 +670,9 @@ func (f *frame) loopHeader(li *loopInfo, st *State, phiVals map[*ssa.Phi]Val) {
 	// implicit invariant: the function's frame condition holds at every iteration
 	if f.top && f.con != nil {
 		for _, name := range sortedKeys(ws) {
+			if g.clean[name] {
+				continue // only ever written at memory allocated by this function: handled below without obligations
+			}
 			if goal, ok := f.frameGoal(name, g.arr(st.heap, name, ws[name])); ok {
 				li.frameArrs = append(li.frameArrs, name)
 				if g.arr(st.heap, name, ws[name]) != g.arr(f.entry, name, ws[name]) {
@@ -644,6 +695,7 @@ func (f *frame) loopHeader(li *loopInfo, st *State, phiVals map[*ssa.Phi]Val) {
 		}
 	}
 	// 2. havoc loop-modified state
+	allocPre := g.arr(st.heap, "alloc", "Bool")
 	for _, name := range sortedKeys(ws) {
 		g.havocArr(st.heap, name, ws[name])
 	}
@@ -664,11 +716,36 @@ func (f *frame) loopHeader(li *loopInfo, st *State, phiVals map[*ssa.Phi]Val) {
 			continue
 		}
 		cur[phi] = f.havocReg(phi, st)
+		if g.isFresh(phiVals[phi].T) {
+			// coinductive freshness: assumed here, checked on every back edge (loopBackEdge)
+			g.markFresh(cur[phi].T)
+			if li.freshPhis == nil {
+				li.freshPhis = map[*ssa.Phi]bool{}
+			}
+			li.freshPhis[phi] = true
+		}
+		if phi.Comment == "rangeindex" {
+			// go/ssa lowers `for i := range slice` to an index that starts at -1 and is incremented by one
+			g.assumeUnder(st.reach, fmt.Sprintf("(and (>= %s (- 1)) (< %s 9223372036854775807))", cur[phi].T, cur[phi].T))
+		}
 	}
 	li.phiCur = cur
 	li.headHeap = st.heap.clone()
 	if f.top {
 		g.registerLoopReplayInputs(li.ordinal, st.heap)
+	}
+	// allocation only grows; arrays that this function writes only in memory it allocated itself keep
+	// their entry values on everything that existed at entry (by construction of the encoding)
+	if _, ok := ws["alloc"]; ok {
+		g.assumeUnder(st.reach, fmt.Sprintf("(forall ((x!al Int)) (! (=> (select %s x!al) (select %s x!al)) :pattern ((select %s x!al))))", allocPre, st.heap.cur["alloc"], st.heap.cur["alloc"]))
+	}
+	if f.top && f.con != nil {
+		for _, name := range sortedKeys(ws) {
+			if g.clean[name] && name != "alloc" && !strings.HasPrefix(name, "G!iter!") {
+				cur := st.heap.cur[name]
+				g.assumeUnder(st.reach, fmt.Sprintf("(forall ((x!fr Int)) (! (=> (select %s x!fr) (= (select %s x!fr) (select %s x!fr))) :pattern ((select %s x!fr))))", g.arr(f.entry, "alloc", "Bool"), cur, g.arr(f.entry, name, ws[name]), cur))
+			}
+		}
 	}
 	for _, name := range li.frameArrs {
 		if goal, ok := f.frameGoal(name, g.arr(st.heap, name, ws[name])); ok {
@@ -727,6 +804,9 @@ func (f *frame) loopBackEdge(li *loopInfo, from *ssa.BasicBlock, si int, st *Sta
 			break
 		}
 		phiVals[phi] = f.val(phi.Edges[pi])
+		if li.freshPhis[phi] && !g.isFresh(phiVals[phi].T) {
+			g.errorf("%s: loop variable %s was assumed to denote memory allocated by this function, but the value on a back edge is not known to be", f.fn, phi.Comment)
+		}
 	}
 	env := f.invEnv(li, st.heap, phiVals, from)
 	tag := fmt.Sprintf("loop%d", li.ordinal)
